@@ -228,6 +228,7 @@ func c08(p *P) {
 		for _, cs := range callsTo(f, false, "gpbft.IsStrongQuorum", "gpbft.hasWeakQuorum") {
 			nSites++
 			part, whole := cs.Arg(0), cs.Arg(1)
+			f := cs.Fn // the function that textually contains the call (possibly a spliced helper)
 			c := fmt.Sprintf("%s: %s(part, whole) operands from one table", funcName(f), cs.Callee()[strings.LastIndex(cs.Callee(), ".")+1:])
 			where := p.c.InstrPos(cs.Instr)
 			var table string
@@ -494,6 +495,8 @@ func closureAccumulation(v ssa.Value, fn *ssa.Function) []string {
 						for k, val := range bound {
 							c = strings.ReplaceAll(c, k, val)
 						}
+						// captured values are rendered in the enclosing function's frame with $^i: map back
+						c = strings.ReplaceAll(c, "$^", "$")
 						out = append(out, c)
 					}
 				}
